@@ -10,7 +10,7 @@ RUN_CFG = {"max_offers": 1, "max_scrape": 2, "max_peer_age": 2, "max_offer_age":
 def model_check(ctx, quick_cfgs, thorough_cfgs):
     cfgs = list(quick_cfgs) + ([] if ctx.quick() else list(thorough_cfgs))
     for c in cfgs:
-        res = run_tlc(ctx, "WsSwarm_MC", c, workers=8, timeout=2400, coverage=not ctx.quick())
+        res = run_tlc(ctx, "WsSwarm_MC", c, workers=8, timeout=5400, coverage=not ctx.quick())
         require_mc_ok(ctx, res, c)
         zero = coverage_zero_actions(res["out"], "WsSwarm") if not ctx.quick() else []
         if zero:
